@@ -1,8 +1,19 @@
 #!/usr/bin/env python3
-"""mutation tests for build_edwards.sh: each case = (name, expect_ok, [(old,new,count_or_None)...])"""
-import subprocess, sys, os, time
-W='/verif/lean/work'
-src=open(f'{W}/Generated.lean').read()
+"""Developer self-test of the Lean back end (run: python3-vt lean/selftest/mutate_edwards.py [case ...]).
+Each case mutates the GENERATED mirror of the real functions (as pyvc/leangen.py prints it from /repo) and checks the whole
+Edwards text (header + mirror + EdwardsProofs + EdwardsExtra + EdwardsGroup) again: wrong mirrors must be rejected, behaviour-
+preserving rewrites accepted.  case = (name, expect_ok, mutated text)"""
+import sys, os, time
+VERIF = os.path.dirname(os.path.dirname(os.path.dirname(os.path.abspath(__file__))))
+sys.path.insert(0, VERIF)
+from pyvc import leanback
+from pyvc.repo import Repo, oracle, Oracle
+_vals = {n: Oracle.dec(oracle().req(op="global", module="spake2.ed25519_basic", name=n)["value"]) for n in ("d", "I", "Q")}
+src, _errs = leanback.generate_defs(Repo(), _vals)
+assert not _errs, _errs
+D = leanback.LEAN_DIR
+_HDR = open(os.path.join(D, "EdwardsHeader.lean")).read()
+_REST = "".join("\n" + open(os.path.join(D, f)).read() for f in ("EdwardsProofs.lean", "EdwardsExtra.lean", "EdwardsGroup.lean"))
 def section(name):
     i=src.index('def '+name+' '); j=src.find('\ndef ',i+1); j=len(src) if j<0 else j
     return i,j
@@ -55,19 +66,15 @@ only=sys.argv[1:]
 res=[]
 for name,exp,text in cases:
     if only and name not in only: continue
-    g=f'{W}/scratch/Gen_{name}.lean'
-    open(g,'w').write(text)
     t=time.time()
-    r=subprocess.run([f'{W}/build_edwards.sh', g, f'scratch/All_{name}'],capture_output=True,text=True)
-    ok=(r.returncode==0)
+    r=leanback.run_lean(_HDR + "\n" + text + "\n" + _REST, "EdMut_" + name)
+    ok=r["ok"]
     status='as expected' if ok==exp else 'UNEXPECTED'
     first=''
     if not ok:
-        errs=[l for l in (r.stderr).splitlines() if 'error' in l or 'forbidden' in l or 'sorry' in l]
-        first=errs[0][:150] if errs else r.stderr[-150:]
+        errs=[l for l in r["tail"].splitlines() if 'error' in l or 'sorry' in l]
+        first=errs[0][:150] if errs else r["tail"][-150:].replace("\n"," ")
     print(f'{name:28s} expect={"OK" if exp else "FAIL":4s} got={"OK" if ok else "FAIL":4s} {status} {time.time()-t:4.0f}s  {first}',flush=True)
     res.append(ok==exp)
-    for f in (g, f'{W}/scratch/All_{name}.lean', f'{W}/scratch/All_{name}.log'):
-        if ok==exp and os.path.exists(f): os.remove(f)
 print('ALL AS EXPECTED' if all(res) else 'SOME UNEXPECTED')
 sys.exit(0 if all(res) else 1)
